@@ -98,6 +98,8 @@ fn render(doc: &Value, dir: &str, fmt: usize) -> Value {
         // builders (the loaded appender prints the same path as its programmatic twin)
         "file_env" => Some(json!({"kind": "file", "path": format!("{}/x$ENV{{LV_CF_OUTER}}.log", dir)})),
         "file_pat" => Some(json!({"kind": "file", "path": path, "encoder": {"pattern": "{l}|{m}{n}"}})),
+        // a pattern that is present and empty: every record encodes to nothing - which is not the default pattern
+        "file_empty_pat" => Some(json!({"kind": "file", "path": path, "encoder": {"kind": "pattern", "pattern": ""}})),
         "roll_delete" => Some(roll(json!({"trigger": size, "roller": del}))),
         "roll_window" => Some(roll(json!({"kind": "compound", "trigger": {"kind": "size", "limit": spelled_w}, "roller": win(json!({}))}))),
         // a limit of zero, as a bare integer (the formats hand integers to the reader differently: unsigned, signed)
@@ -333,6 +335,7 @@ fn check_format(case: &Value, fmt: usize) -> Option<Value> {
             "file_json" => Some(Box::new(log4rs::append::file::FileAppender::builder().encoder(Box::new(log4rs::encode::json::JsonEncoder::new())).build(&xp).unwrap())),
             "file_env" => Some(Box::new(log4rs::append::file::FileAppender::builder().build(format!("{}/x$ENV{{LV_CF_OUTER}}.log", dir)).unwrap())),
             "file_pat" => Some(Box::new(log4rs::append::file::FileAppender::builder().encoder(Box::new(log4rs::encode::pattern::PatternEncoder::new("{l}|{m}{n}"))).build(&xp).unwrap())),
+            "file_empty_pat" => Some(Box::new(log4rs::append::file::FileAppender::builder().encoder(Box::new(log4rs::encode::pattern::PatternEncoder::new(""))).build(&xp).unwrap())),
             "roll_delete" => Some(Box::new(log4rs::append::rolling_file::RollingFileAppender::builder()
                 .build(&xp, Box::new(CompoundPolicy::new(Box::new(SizeTrigger::new(1024)), Box::new(DeleteRoller::new())))).unwrap())),
             "roll_zero_limit" => Some(Box::new(log4rs::append::rolling_file::RollingFileAppender::builder()
